@@ -94,4 +94,55 @@ structure Conforms (cfg : Cfg) (captured : Bool) (m : Msg) (r : Reply) : Prop wh
   xid : r.xid = m.xid
   chaddr : r.chaddr = m.chaddr
 
+/-- C12 with the values the statement names, for a server constructed by `Config.New` from `n`: the netfilter subnet
+    with OUR netfilter address as router and the family DNS server when captured, the home LAN with the REAL router and
+    the configured DNS server otherwise, the matching mask, OUR address as server identifier, four hours -/
+structure ConformsNew (n : NewCfg) (captured : Bool) (m : Msg) (r : Reply) : Prop where
+  inSubnet : r.yiaddr / 2 ^ (32 - (if captured then n.nfBits else n.homeBits))
+              = (if captured then n.nfAddr else n.homeLan) / 2 ^ (32 - (if captured then n.nfBits else n.homeBits))
+  router : optOf r 3 = some (be4 (if captured then n.nfAddr else n.router))
+  dns : optOf r 6 = some (be4 (if captured then familyDNS else n.dns.getD n.router))
+  mask : optOf r 1 = some (be4 (2 ^ 32 - 2 ^ (32 - (if captured then n.nfBits else n.homeBits))))
+  serverId : optOf r 54 = some (be4 n.host)
+  leaseTime : optOf r 51 = some (be4 14400)
+  xid : r.xid = m.xid
+  chaddr : r.chaddr = m.chaddr
+
+/-! ### what an observer of the wire knows about offers and leases (C12: "an ACK confirms the address offered in that
+    transaction or the client's current lease") -/
+
+/-- an OFFER seen on the wire: to which client, in which transaction, which address -/
+structure OfferRec where
+  cid : Cid
+  xid : Bytes
+  ip : IP
+  deriving DecidableEq, Repr
+
+/-- `offers`: the OFFER last sent to each client that was neither superseded by a later DISCOVER of that client nor
+    consumed by an ACK; `held`: the address last acknowledged to each client -/
+structure Observed where
+  offers : List OfferRec
+  held : List (Cid × IP)
+  deriving DecidableEq, Repr
+
+def ackedOf (c : Cid) (rs : List Reply) : List (Cid × IP) :=
+  (rs.filter (fun r => r.typ == .ack)).map (fun r => (c, r.yiaddr))
+
+def offeredOf (c : Cid) (rs : List Reply) : List OfferRec :=
+  (rs.filter (fun r => r.typ == .offer)).map (fun r => ⟨c, r.xid, r.yiaddr⟩)
+
+def isDiscover : Op → Bool
+  | .discover .. => true
+  | _ => false
+
+/-- the observer's knowledge after one op and its replies: a DISCOVER of client c replaces c's outstanding offer by the
+    OFFER sent in reply (if any); an ACK to c consumes c's offer and makes the acknowledged address c's lease -/
+def watch (W : Observed) (op : Op) (rs : List Reply) : Observed :=
+  match subject op with
+  | none => W
+  | some c =>
+    { offers := if isDiscover op || !(ackedOf c rs).isEmpty then W.offers.filter (fun o => o.cid != c) ++ offeredOf c rs
+                else W.offers,
+      held := if (ackedOf c rs).isEmpty then W.held else W.held.filter (fun e => e.1 != c) ++ ackedOf c rs }
+
 end PV.Spec.Ledger
